@@ -100,6 +100,21 @@ func DecodePureDKG(data []byte) (*puredkg.PureDKG, error) {
 	if err != nil {
 		return nil, err
 	}
+	// gob cannot represent nil elements in a slice of pointers. Gammas.GobEncode and
+	// big.Int.GobEncode accept a nil receiver, so the entries of Commitments and Evals that were
+	// nil when the object was encoded come back as an empty Gammas value and as zero. puredkg
+	// uses nil for "not received yet" and would reject the actual commitment or poly eval as a
+	// duplicate, so restore the nil entries here.
+	for i, c := range p.Commitments {
+		if c != nil && len(*c) == 0 {
+			p.Commitments[i] = nil
+		}
+	}
+	for i, e := range p.Evals {
+		if e != nil && e.Sign() == 0 {
+			p.Evals[i] = nil
+		}
+	}
 	return p, nil
 }
 
